@@ -44,44 +44,3 @@ Definition malformed_variants (r : posix) : list (list Z) :=
       end
   end.
 
-Definition rejects_all (r : posix) : bool :=
-  forallb (fun s =>
-    match tzstr_init s false, tzstr_init s true with
-    | Err 1, Err 1 => true
-    | _, _ => false
-    end) (malformed_variants r).
-
-Definition rej_family : list posix :=
-  flat_map (fun off =>
-    flat_map (fun sv =>
-    flat_map (fun sd =>
-    flat_map (fun ed =>
-    flat_map (fun st =>
-    map (fun et => mkPosix [69; 83; 84] off
-                     (Some (mkDst [69; 68; 84] (off + sv) (mkPrule sd st) (mkPrule ed et))))
-        [7200; 604799]) [0; 9015]) [DJ 1; DJ 300; DN 0; DN 300; DM 1 1 0; DM 11 5 6])
-                                   [DJ 60; DJ 365; DN 59; DN 365; DM 3 2 0; DM 12 4 3])
-                                   [3600; -1800]) [-18000; 0; 19800].
-
-Lemma rejects_family : forallb rejects_all rej_family = true.
-Proof. vm_compute. reflexivity. Qed.
-
-(* FULL STATEMENT (not proved in full): for every well-formed rule r and every s in
-   malformed_variants r, tzstr_init s po = Err EValue.  Proved: the mechanism for all strings
-   (tzstr_rejects_unparsed_lemma) and the classes for the finite family rej_family (864 rules x
-   8-9 malformed strings x both posix_offset values) by computation. *)
-Lemma tzparse_rejects_partial_lemma :
-  forall r, In r rej_family -> forall s, In s (malformed_variants r) ->
-  tzstr_init s false = Err EValue /\ tzstr_init s true = Err EValue.
-Proof.
-  intros r Hr s Hs. pose proof rejects_family as F. rewrite forallb_forall in F.
-  specialize (F r Hr). unfold rejects_all in F. rewrite forallb_forall in F. specialize (F s Hs).
-  destruct (tzstr_init s false) as [|e1]; [discriminate|].
-  destruct (tzstr_init s true) as [|e2]; [destruct e1 as [|[]|]; discriminate|].
-  unfold EValue.
-  destruct e1 as [|[p|p|]|]; try discriminate; destruct e2 as [|[q|q|]|]; try discriminate; auto.
-Qed.
-
-Example rej_family_nonempty : length rej_family = 864%nat /\
-  length (malformed_variants (hd (mkPosix [] 0 None) rej_family)) = 8%nat.
-Proof. vm_compute. split; reflexivity. Qed.
